@@ -18,6 +18,11 @@ THEOREMS = [
     "C06.loader_negation_kept",
     "C06.loader_negated_comparison_on_absent_field",
     "C06.quiescent_fire_all_exact_no_size_hypothesis_counterexample",
+    # actions that modify the matched fact: oracle clause action_write_lost (C06.writesOk / C06.writeBackBad, Spec.lean)
+    "C06.action_writes_kept",
+    "C06.action_writes_kept_history",
+    "C06.fire_one_applies_assignments",
+    "C06.action_writes_kept_needs_map_data",
 ]
 N = {"quick": 1500, "thorough": 20000}
 EXHAUSTIVE = {"quick": False, "thorough": False}
@@ -32,7 +37,7 @@ RULE = ("cases = corpus (defect witnesses, corner cases) + N random histories of
         "2 in 50 of the family 'rules of another fact type re-activated by the re-propagation after a firing' (2..3 types, fire_all, reset, one "
         "type touched, fire_all), 4 in 50 of the family 'an action changes only the TYPE of a field' (a writer rule assigns Float n.0 where "
         "Integer n stands or the reverse — same printed form, different value for == / != —, one or two type-sensitive reader rules above or "
-        "below it, fire_all, optional reset / update / fire_all; the glue-level oracle clause action_write_lost of Driver/C06.lean: when the "
+        "below it, fire_all, optional reset / update / fire_all; the oracle clause action_write_lost = C06.writeBackBad / C06.writesOk of Spec.lean (theorems action_writes_kept, action_writes_kept_history): when the "
         "matched fact is the only live fact of its type, the next firing on it / the view after the call shows the recorded contents plus the "
         "rule's assignments, as typed values) "
         "(alpha nodes with ==,!=,<,<=,>,>= against integer/float/boolean/string/null literals or another field, combined by and/or/not; actions: "
